@@ -2,6 +2,8 @@
 
 Simulated dimension: seeded histories of scheduler registrations / removals / re-registrations with
 injected rejections (duplicate id, unknown id), interleaved with timesteps."""
+import copy
+
 from ECAgent.Collectors import Collector
 
 from .common import SID, Model, Rec, RefSched, SystemNotFoundError, gen_flavour, gen_prio, rec_class
@@ -19,7 +21,7 @@ COMPONENTS = {"real": ["ECAgent.Core.SystemManager.add_system/remove_system/exec
                        "ECAgent.Collectors.Collector (default priority)"],
               "stub": ["System.execute / Collector.collect bodies are harness recorders"]}
 PROBES = ["tie_of_3", "readd_after_remove", "insert_head", "insert_middle", "insert_tail",
-          "negative_next_to_collector", "dup_rejected", "unknown_rejected", "extreme_priority", "same_object_reregistered", "systems_with_value_equality", "falsy_systems", "process_with_earlier_registrations", "systems_returning_values_from_execute", "system_waiting_for_its_start", "reprioritised_same_object"]
+          "negative_next_to_collector", "dup_rejected", "unknown_rejected", "extreme_priority", "same_object_reregistered", "systems_with_value_equality", "falsy_systems", "process_with_earlier_registrations", "systems_returning_values_from_execute", "system_waiting_for_its_start", "reprioritised_same_object", "history_continued_on_a_copy"]
 TECHNIQUE = "deterministic simulation: seeded registration/removal histories with injected rejections vs a sorted-list reference, per-timestep execution log oracle"
 LEVEL_TEXT = ("Seeded search over registration histories; after every timestep the execution order recorded from the real "
               "scheduler must equal the reference (descending priority, registration order among equals) and after every "
@@ -66,6 +68,9 @@ def generate(rng, tier):
             ops.append({"op": "step", "n": rng.choice([1, 1, 1, 2, 3])})
         else:
             ops.append({"op": "lookup", "k": rng.randrange(n)})
+    if rng.random() < 0.12:
+        for _ in range(rng.randint(1, 2)):      # checkpoint / branch: the history continues on a deep copy (or pickle round trip)
+            ops.insert(rng.randint(0, len(ops)), {"op": "branch", "how": rng.choice(["deepcopy", "deepcopy", "deepcopy"])})
     for _ in range(rng.choice([0, 0, 1, 2])):
         ops.insert(rng.randint(0, len(ops)), {"op": "reprio", "k": rng.randrange(n), "prio": gen_prio(rng) if rng.random() < 0.5 else rng.choice([-3, -1, 0, 1, 2, 5]),
                                               "via": rng.choice(["id", "clean_up"])})
@@ -193,6 +198,16 @@ def execute(sc, ctx):
                 ctx.expect_raises("remove-unknown", SystemNotFoundError, sm.remove_system, sid)
                 ctx.event("remove_rejected", sid)
                 shape.append(["rmx", len(ref.q)])
+        elif kind == "branch":
+            # the history continues on a deep copy of the model (its systems, the recording world and the harness's handles on
+            # the system objects travel along, so identities stay consistent inside the copy)
+            w.ctx = None                 # (the harness context is not part of the program state)
+            model, w, live, retired = copy.deepcopy((model, w, live, retired))
+            w.ctx = ctx
+            sm = model.systems
+            ctx.fault("restart.continue_on_copy")
+            ctx.probe("history_continued_on_a_copy")
+            continue
         elif kind == "remove_ghost":
             if ref.has(op["id"]):
                 continue
